@@ -870,6 +870,12 @@ func (ctx *context) Run() (res *Result) {
 	for x, instr := range ctx.prog {
 		ctx.addDebugInstrAndStack(instr.fnName)
 		instr.fn(ctx)
+		if ctx.res.runErr != nil {
+			// An instruction recorded an error from the data tree without
+			// pushing a value; the remaining instructions would only fail
+			// on the missing operand and overwrite the real error.
+			break
+		}
 		ctx.addDebug(ctx.pfx + "----\n")
 		_ = x
 	}
